@@ -395,6 +395,83 @@ def limit_shapes(chk, w2c2):
     chk.observe('limit_shapes_part', 'ran %d shapes' % ran, 'set')
 
 
+def alias_part(chk, w2c2, quick):
+    """Accesses of DIFFERENT types to the same bytes inside ONE function (the shape of a union / type-punning / memcpy-style code compiled
+    to wasm): load A at (i << k), store B at (j << k) with i == j at run time, load A again; also inside a loop. A C compiler that is
+    told the accesses have C types may reorder them (type-based alias analysis); linear memory has no types. Builds at -O2 / -O3."""
+    m = Module()
+    m.mems.append((1, 1, False))
+    m.exports.append(('mem', 'memory', 0))
+    kinds = [('i32.load', 'f32.store', 2, F32), ('f32.load', 'i32.store', 2, I32), ('i64.load', 'f64.store', 3, F64), ('f64.load', 'i64.store', 3, I64),
+             ('i32.load', 'i32.store16', 2, I32), ('i64.load', 'i32.store', 3, I32), ('i32.load', 'i64.store', 2, I64), ('i64.load', 'f32.store', 3, F32),
+             ('i32.load16_u', 'i32.store', 1, I32), ('f64.load', 'f32.store', 3, F32), ('i64.load32_u', 'f32.store', 2, F32), ('i32.load', 'i64.store32', 2, I64)]
+
+    def as64(ld):
+        t = OPS[ld][4][0]
+        return {I32: [('i64.extend_i32_u',)], I64: [], F32: [('i32.reinterpret_f32',), ('i64.extend_i32_u',)], F64: [('i64.reinterpret_f64',)]}[t]
+
+    def val(t, salt):
+        # a value of the store's operand type derived from parameter 2 (i64), never a NaN
+        base = [('local.get', 2), ('i64.const', salt), ('i64.add',)]
+        return base + {I32: [('i32.wrap_i64',)], I64: [], F32: [('i32.wrap_i64',), ('i32.const', 0xffffff), ('i32.and',), ('f32.convert_i32_u',)], F64: [('f64.convert_i64_u',)]}[t]
+    names = []
+    for ki, (ld, st, sh, vt) in enumerate(kinds):
+        addr_i = [('local.get', 0), ('i32.const', sh), ('i32.shl',)]
+        addr_j = [('local.get', 1), ('i32.const', sh), ('i32.shl',)]
+        al = sh
+        sal = natural_align(st)
+        # load, store, load
+        body = addr_i + [(ld, min(al, natural_align(ld)), 0)] + as64(ld) + addr_j + val(vt, 3) + [(st, min(sal, sh), 0)] + addr_i + [(ld, min(al, natural_align(ld)), 0)] + as64(ld) + [('i64.const', 1099511628211), ('i64.mul',), ('i64.add',)]
+        m.add_func([I32, I32, I64], [I64], [], body, export='lsl%d' % ki)
+        # store, store(other type), load
+        body = addr_i + [('i32.const', 64), ('i32.add',)] + val(vt, 9) + [(st, min(sal, sh), 0)] + addr_j + [('i32.const', 64), ('i32.add',)] + val(vt, 77) + [(st, min(sal, sh), 0)] + addr_i + [('i32.const', 64), ('i32.add',)] + [(ld, min(al, natural_align(ld)), 0)] + as64(ld)
+        m.add_func([I32, I32, I64], [I64], [], body, export='ssl%d' % ki)
+        # loop: 8 rounds of store B at j / load A at i, accumulated
+        body = [('i32.const', 8), ('local.set', 3), ('loop', None)] + addr_j + val(vt, 5) + [('local.get', 3), ('i64.extend_i32_u',), ('i64.add',)] + \
+               {I32: [('i32.wrap_i64',)], I64: [], F32: [('f32.convert_i64_u',)], F64: [('f64.convert_i64_u',)]}[vt][:0] + []
+        # (value already of type vt from val(); add the round number only for integer stores)
+        body = [('i32.const', 8), ('local.set', 3), ('loop', None)] + addr_j + val(vt, 5) + [(st, min(sal, sh), 0)] + \
+               [('local.get', 2), ('i64.const', 1), ('i64.add',), ('local.set', 2)] + \
+               addr_i + [(ld, min(al, natural_align(ld)), 0)] + as64(ld) + [('local.get', 4), ('i64.const', 31), ('i64.mul',), ('i64.add',), ('local.set', 4)] + \
+               [('local.get', 3), ('i32.const', 1), ('i32.sub',), ('local.tee', 3), ('br_if', 0), ('end',), ('local.get', 4)]
+        m.add_func([I32, I32, I64], [I64], [(1, I32), (1, I64)], body, export='loop%d' % ki)
+        names += ['lsl%d' % ki, 'ssl%d' % ki, 'loop%d' % ki]
+    m.add_func([I32, I64], [], [], [('local.get', 0), ('local.get', 1), ('i64.store', 0, 0)], export='seed')
+    b = m.encode()
+    plan = e2e.Plan(m)
+    rnd = env.rng('c05-alias')
+    lines = ['I 0']
+    for a in range(0, 512, 8):
+        lines.append('c 0 %d %s %s' % (plan.fk('seed'), hex(a), hex(rnd.getrandbits(64) & 0x7fefffff7f7fffff)))
+    for nm in names:
+        for (i, j) in ((5, 5), (5, 6), (0, 0), (7, 3), (3, 3)):
+            lines.append('c 0 %d %s %s %s' % (plan.fk(nm), hex(i), hex(j), hex(rnd.getrandbits(40))))
+    lines.append('w 0 0 0 512')
+    script = '\n'.join(lines) + '\n'
+    d = env.subdir('c05-alias')
+    st, ref, _ = e2e.run_ref(b, plan, script, d)
+    if st != 'ok':
+        chk.inconclusive('alias part: reference failed (%s): %s' % (st, str(ref)[:300]))
+        return
+    files = {'module.wasm': b, 'script.txt': script}
+    builds = [('gcc-O2', 'gcc', ['-O2']), ('gcc-O3', 'gcc', ['-O3']), ('clang-O2', 'clang', ['-O2'])] + ([] if quick else [('clang-O3', 'clang', ['-O3']), ('gcc-O1', 'gcc', ['-O1']), ('gcc-Os', 'gcc', ['-Os'])])
+    for tag, cc, fl in builds:
+        st2, out, r = e2e.build_and_run(w2c2, b, plan, script, os.path.join(d, tag), cc=cc, cflags=fl)
+        chk.ev(len(names) * 5)
+        chk.distinct(('alias', tag))
+        if st2 != 'ok':
+            chk.violation('C05:alias:%s:%s' % (st2, tag), 'type-punning module failed at %s (%s): %s' % (st2, tag, str(out)[-600:]), files)
+            continue
+        for step, kind, ra, rb, i in diff.compare(ref, out, {}):
+            pc = diff.parse_call(ref[i])
+            nm = plan.exports[pc[1]]['name'] if pc else 'memory'
+            ki = int(''.join(ch for ch in nm if ch.isdigit()) or 0)
+            chk.violation('C05:alias:%s-then-%s' % (kinds[ki][1], kinds[ki][0]) if pc else 'C05:alias:memory', 'build %s: %s(%s): reference %s, compiled %s (a %s to the same bytes between two %s in one function)' % (
+                tag, nm, ', '.join(hex(x) for x in pc[2]) if pc else '', ra[:60], rb[:60], kinds[ki][1], kinds[ki][0]), files)
+            break
+    chk.observe('alias_part_functions', len(names), 'set')
+
+
 def main(chk):
     quick = chk.tier == 'quick'
     w2c2 = env.build_translator('plain')
@@ -474,6 +551,7 @@ def main(chk):
     probes(chk, w2c2)
     big_offsets(chk, w2c2)
     limit_shapes(chk, w2c2)
+    alias_part(chk, w2c2, quick)
     chk.observe('histories', nh, 'set')
     chk.observe('ops_per_history', nops, 'set')
     chk.observe('generator_rejected', rejected, 'set')
